@@ -266,7 +266,13 @@ Definition fut_resolve (stt : fstatus) (s : st) (c : N) (v : value) : st :=
 Definition fut_complete := fut_resolve Completed.
 Definition fut_cancel := fut_resolve Cancelled.
 
-Definition store_put_f (s : st) (id c : N) : st := set_t s (t_set_store (t s) (amap_put (t_store (t s)) id c)).
+(* futureStore.Put: a different future still stored under the id is cancelled (e5b29e3) *)
+Definition store_put_f (s : st) (id c : N) : st :=
+  let s1 := match amap_get (t_store (t s)) id with
+            | Some c' => if c' =? c then s else fut_cancel s c' VNil
+            | None => s
+            end in
+  set_t s1 (t_set_store (t s1) (amap_put (t_store (t s1)) id c)).
 Definition store_del_f (s : st) (id : N) : st := set_t s (t_set_store (t s) (amap_del (t_store (t s)) id)).
 Definition store_get_f (s : st) (id : N) : option N := amap_get (t_store (t s)) id.
 
@@ -436,7 +442,7 @@ Definition proc_hidden (s : st) : option st :=
       Some (set_ppc s2 PAll)
   | PConnackCancel sp rc =>
     let s1 := match t_connfut (t s) with Some c => fut_cancel s c (VConnack sp rc) | None => s end in
-    Some (set_ppc s1 PExited)
+    Some (set_ppc s1 (PRecv false))     (* the loop ignores processConnack's error and goes on to Receive *)
   | PAckFut p =>
     match get_id p with
     | None => None
@@ -448,7 +454,7 @@ Definition proc_hidden (s : st) : option st :=
         | Suback _ codes =>
           let s1 := store_del_f s id in
           if cf_validate (k_cfg (k s)) && has_failure codes
-          then Some (set_ppc (fut_cancel s1 c VNil) PExited)      (* returns ErrFailedSubscription: no die *)
+          then Some (die_proc (fut_cancel s1 c VNil) true PExited)  (* die(ErrFailedSubscription, true) (7ac1a73) *)
           else Some (set_ppc (fut_complete s1 c (VSuback codes)) (PRecv false))
         | _ => Some (set_ppc (store_del_f (fut_complete s c VNil) id) (PRecv false))
         end
@@ -583,7 +589,7 @@ Definition step_tx (s : st) (p : packet) (async : bool) (r : res) : option st :=
         let s' := set_sess s' (sess_with (sess s') Outgoing (store_setdup (s_out (sess s')) q)) in
         match r with
         | Ok => Some (set_ppc s' (match rest with [] => PRecv false | _ => PResend rest end))
-        | Fail => Some (die_proc s' false PExited)
+        | Fail => Some (die_proc s' false (PRecv false))
         end
       else None
     | PPubAck id, Puback id' => if id =? id' then cont (PRecv false) else None
@@ -789,7 +795,7 @@ Definition step (s : st) (e : event) : option st :=
     match d, k_ppc (k s) with
     | Outgoing, PAll =>
       match r with
-      | None => Some (die_proc s true PExited)
+      | None => Some (die_proc s true (PRecv false))
       | Some l =>
         if list_eqb packet_eqb l (store_all (s_out (sess s)))
         then Some (set_ppc s (match l with [] => PRecv false | _ => PResend l end))
@@ -848,7 +854,11 @@ Definition step (s : st) (e : event) : option st :=
       let fu := cf_fut f in
       let v := f_result fu in
       if fstatus_eqb (f_status fu) (if completed then Completed else Cancelled) then
-        match session_present v, return_code v, return_codes v with
+        (* the watcher reads the accessors the future's Go type has *)
+        let want_sp := match cf_kind f with KConnect => session_present v | _ => AVal false end in
+        let want_rc := match cf_kind f with KConnect => return_code v | _ => AVal 0 end in
+        let want_codes := match cf_kind f with KSub => return_codes v | _ => AVal [] end in
+        match want_sp, want_rc, want_codes with
         | AVal sp', AVal rc', AVal codes' =>
           if Bool.eqb sp sp' && (rc =? rc') && list_eqb N.eqb codes codes' then Some s else None
         | _, _, _ => None
